@@ -50,12 +50,12 @@ theorem register_distinct (tbl tbl' : Table) (h : Hook) (hd : Distinct tbl)
     exact ⟨x, hx, hxe⟩
 
 /-- whether the occurrence's time is in the hook's time list (always, if none is given) -/
-def timeOK (h : Hook) (t : Nat) : Bool :=
+def timeOK (h : Hook) (t : Int) : Bool :=
   match h.times with
   | none => true
   | some ts => ts.contains t
 
-theorem contains_keys (h : Hook) (t : Nat) :
+theorem contains_keys (h : Hook) (t : Int) :
     ((keysOf h).contains none || (keysOf h).contains (some t)) = timeOK h t ∧
     ¬ ((keysOf h).contains none = true ∧ (keysOf h).contains (some t) = true) := by
   unfold keysOf timeOK
@@ -91,7 +91,7 @@ theorem count_filter_nodup (l : List Hook) (hd : (l.map (·.id)).Nodup) (p : Hoo
 type whose time is in its time list (always, if it has none) and — for market-step hooks — whose
 market passes its class and instance filter, and not at all otherwise. -/
 theorem dispatch_count (tbl : Table) (hd : Distinct tbl) (h : Hook) (hm : h ∈ tbl)
-    (kind : Kind) (t : Nat) (market : Option (Nat × Bool)) :
+    (kind : Kind) (t : Int) (market : Option (Nat × Bool)) :
     (dispatch tbl kind t market).count h =
       if h.kind = kind ∧ timeOK h t = true ∧ filterOK h market = true then 1 else 0 := by
   unfold dispatch bucket
@@ -105,7 +105,7 @@ theorem dispatch_count (tbl : Table) (hd : Distinct tbl) (h : Hook) (hm : h ∈ 
   all_goals simp [h1, h3]
 
 /-- a hook that is not registered is never invoked -/
-theorem dispatch_only_registered (tbl : Table) (kind : Kind) (t : Nat)
+theorem dispatch_only_registered (tbl : Table) (kind : Kind) (t : Int)
     (market : Option (Nat × Bool)) : ∀ h ∈ dispatch tbl kind t market, h ∈ tbl ∧ h.kind = kind := by
   intro h hh
   unfold dispatch bucket at hh
